@@ -163,18 +163,25 @@ class Value:
                 self.network = Network(network_names[0])
                 self.currency = cur_code
             else:
+                unknown_code = False
                 for den, symb in NETWORK_DENOMINATORS.items():
                     if len(symb) and cur_code[:len(symb)] == symb:
-                        cur_code = cur_code[len(symb):]
+                        rest_code = cur_code[len(symb):]
                         network_names = [n for n in NETWORK_DEFINITIONS if
-                                         NETWORK_DEFINITIONS[n]['currency_code'].upper() == cur_code.upper()]
+                                         NETWORK_DEFINITIONS[n]['currency_code'].upper() == rest_code.upper()]
+                        if not network_names and len(rest_code):
+                            # this may be the prefix of a longer symbol ('d' of 'da'): keep looking
+                            unknown_code = True
+                            continue
+                        unknown_code = False
+                        cur_code = rest_code
                         if network_names:
                             self.network = Network(network_names[0])
                             self.currency = cur_code
-                        elif len(cur_code):
-                            raise ValueError("Currency symbol not recognised")
                         den_input = den
                         break
+                if unknown_code:
+                    raise ValueError("Currency symbol not recognised")
             self.value = float(value) * den_input
             self.denominator = den_input if den_arg is None else den_arg
         else:
